@@ -79,21 +79,38 @@ NO_TSAN void ledger_dump(char *buf, size_t n)
     for (int i = 0; i < led_n && o + 32 < n; i++) o += (size_t)snprintf(buf + o, n - o, "%zu ", led[i].n);
 }
 static int foreign_frees;
-void *__wrap_malloc(size_t n) { void *p = malloc(n); led_add(p, n); return p; }
-void *__wrap_calloc(size_t a, size_t b) { void *p = calloc(a, b); led_add(p, a * b); return p; }
+/* ---- allocation-failure injection (engine M). Armed by the engine around ONE public call: the n-th allocation request that
+ * comes from the selected object (the front end, liberasurecode.so.1) fails, and with alloc_fail_from every later one as well. */
+long alloc_fail_at, alloc_fail_from, alloc_seen, alloc_failed;
+static void *alloc_obj_base;
+void alloc_fault_scope(void *any_symbol_in_object) { Dl_info di; alloc_obj_base = (any_symbol_in_object && dladdr(any_symbol_in_object, &di)) ? di.dli_fbase : NULL; }
+static NO_TSAN int alloc_must_fail(void *ra)
+{
+    if (!alloc_obj_base) return 0;
+    { Dl_info di; if (!dladdr(ra, &di) || di.dli_fbase != alloc_obj_base) return 0; }
+    alloc_seen++;
+    if ((alloc_fail_at && alloc_seen == alloc_fail_at) || (alloc_fail_from && alloc_seen >= alloc_fail_from)) { alloc_failed++; return 1; }
+    return 0;
+}
+#define RA __builtin_extract_return_addr(__builtin_return_address(0))
+void *__wrap_malloc(size_t n) { if (alloc_must_fail(RA)) { errno = ENOMEM; return NULL; } void *p = malloc(n); led_add(p, n); return p; }
+void *__wrap_calloc(size_t a, size_t b) { if (alloc_must_fail(RA)) { errno = ENOMEM; return NULL; } void *p = calloc(a, b); led_add(p, a * b); return p; }
 void *__wrap_realloc(void *q, size_t n)
 {
+    if (alloc_must_fail(RA)) { errno = ENOMEM; return NULL; }
     if (q) led_del(q);
     void *p = realloc(q, n); led_add(p, n); return p;
 }
 int __wrap_posix_memalign(void **out, size_t al, size_t n)
 {
+    if (alloc_must_fail(RA)) return ENOMEM;
     int rc = posix_memalign(out, al, n);
     if (rc == 0) led_add(*out, n);
     return rc;
 }
 char *__wrap_strdup(const char *s)
 {
+    if (alloc_must_fail(RA)) { errno = ENOMEM; return NULL; }
     size_t n = strlen(s) + 1; char *p = malloc(n);
     if (p) { memcpy(p, s, n); led_add(p, n); }
     return p;
@@ -167,7 +184,7 @@ struct wslot {
     volatile long cur_group, cur_case, heartbeat;
     char gkey[320], ckey[448], op[128];
     long resume_group, resume_case;
-    long cases, transitions, nontrivial, groups_done, distinct, saturated, restarts, violations;
+    long cases, transitions, nontrivial, groups_done, distinct, saturated, restarts, violations, hangs;
     long extra[16]; char extra_name[16][32];
     char samples[NSAMP][768]; long sample_seq[NSAMP];
     char last_key[768];
@@ -187,6 +204,7 @@ static int W = 0, NW = 1;
 static const char *opt_plan = "", *opt_tier = "quick", *opt_out = NULL, *opt_only = NULL;
 static double opt_deadline = 0, opt_case_timeout = 20;
 static long opt_maxviol = 25;
+static int opt_first;              /* --first: stop the whole run at the first violation (history replays) */
 static char *opt_kv[64]; static int opt_nkv;
 static double t0;
 static int out_fd = -1;
@@ -265,6 +283,7 @@ int vh_case_begin(const char *fmt, ...)
     if (!x_in_group) return 0;
     finish_case(s);
     x_case++;
+    if (opt_first && SH->stop) return 0;
     if (x_resuming && x_case <= s->resume_case) return 0;
     char key[448]; va_list ap; va_start(ap, fmt); vsnprintf(key, sizeof key, fmt, ap); va_end(ap);
     if (opt_only) {
@@ -318,7 +337,7 @@ void vh_violation(const char *site, const char *fmt, ...)
     snprintf(st, sizeof st, "site:%s:%s", s->op[0] ? s->op : "-", site);
     out_line("V", key, st, det);
     s->violations++;
-    if (__atomic_add_fetch(&SH->nviol, 1, __ATOMIC_RELAXED) >= opt_maxviol * 40) SH->stop = 1;
+    if (__atomic_add_fetch(&SH->nviol, 1, __ATOMIC_RELAXED) >= opt_maxviol * 40 || opt_first) SH->stop = 1;
 }
 long vh_violations(void) { return SH ? SH->w[W].violations : 0; }
 void vh_note(const char *fmt, ...)
@@ -394,13 +413,16 @@ static int run_worker(void)
         /* crash / hang: attribute to the current case */
         char key[800], cls[96], det[2048], st[320];
         cur_key(key, sizeof key);
-        if (hung) { snprintf(cls, sizeof cls, "hang"); snprintf(det, sizeof det, "no progress for %.0f s", opt_case_timeout); }
+        if (hung) { snprintf(cls, sizeof cls, "hang"); snprintf(det, sizeof det, "no progress for %.0f s", opt_case_timeout);
+                    /* every hang costs the full time limit: three in one worker are enough to report, stop the run */
+                    if (++s->hangs >= 3) SH->stop = 1; }
         else if (WIFSIGNALED(status)) vh_classify_crash(errfile, WTERMSIG(status), cls, sizeof cls, det, sizeof det);
         else { vh_classify_crash(errfile, 0, cls, sizeof cls, det, sizeof det); if (!strncmp(cls, "signal", 6)) snprintf(cls, sizeof cls, "exit-%d", WEXITSTATUS(status)); }
         snprintf(st, sizeof st, "site:%s:%s", s->op[0] ? s->op : "-", cls);
         out_line("V", key, st, det);
         s->violations++; s->restarts++;
         finish_case(s);
+        if (opt_first) { SH->stop = 1; return 0; }
         if (opt_only) { FILE *ef = fopen(errfile, "r"); if (ef) { char b[4096]; size_t n; while ((n = fread(b, 1, sizeof b, ef)) > 0) fwrite(b, 1, n, stderr); fclose(ef); } return 0; }
         if (s->restarts >= opt_maxviol * 4 || __atomic_add_fetch(&SH->nviol, 1, __ATOMIC_RELAXED) >= opt_maxviol * 40) { SH->stop = 1; return 0; }
         s->resume_group = s->cur_group; s->resume_case = s->cur_case;
@@ -410,8 +432,6 @@ static int run_worker(void)
 int vh_main(int argc, char **argv, vh_engine_fn fn)
 {
     ENGINE = fn; t0 = now();
-    /* pin the plug-ins so that create/destroy do not load and unload them every time */
-    dlopen("libisal.so.2", RTLD_NOW | RTLD_LOCAL); dlopen("libnullcode.so.1", RTLD_NOW | RTLD_LOCAL);
     for (int i = 1; i < argc; i++) {
         if (!strcmp(argv[i], "--plan") && i + 1 < argc) opt_plan = argv[++i];
         else if (!strcmp(argv[i], "--tier") && i + 1 < argc) opt_tier = argv[++i];
@@ -421,10 +441,14 @@ int vh_main(int argc, char **argv, vh_engine_fn fn)
         else if (!strcmp(argv[i], "--deadline") && i + 1 < argc) opt_deadline = atof(argv[++i]);
         else if (!strcmp(argv[i], "--case-timeout") && i + 1 < argc) opt_case_timeout = atof(argv[++i]);
         else if (!strcmp(argv[i], "--max-violations") && i + 1 < argc) opt_maxviol = atol(argv[++i]);
+        else if (!strcmp(argv[i], "--first")) opt_first = 1;
         else if (!strcmp(argv[i], "--opt") && i + 1 < argc) { if (opt_nkv < 64) opt_kv[opt_nkv++] = argv[++i]; }
         else { fprintf(stderr, "unknown argument %s\n", argv[i]); return 2; }
     }
     if (!opt_out) { fprintf(stderr, "--out required\n"); return 2; }
+    /* pin the plug-ins so that create/destroy do not load and unload them every time (--opt pin_plugins=0: engines whose
+     * subject is the instance life cycle, where a surplus dlclose must be able to unmap the library) */
+    if (vh_opt("pin_plugins", 1)) { dlopen("libisal.so.2", RTLD_NOW | RTLD_LOCAL); dlopen("libnullcode.so.1", RTLD_NOW | RTLD_LOCAL); }
     if (opt_only) NW = 1;
     if (NW < 1) NW = 1;
     if (NW > MAXW) NW = MAXW;
